@@ -868,7 +868,34 @@ def dialorder_case(rng):
     return ops
 
 
+def dnsdial_case(rng, kind=None):
+    """C10: a dial success / failure re-scores exactly the address that was used — a SUCCESSFUL dial through the real TCP
+    transport over `/dns4/localhost` (`hf<k>`), `/dns/localhost` (`hn<k>`), `/dns6/localhost` (`hs<k>`; no `::1` listener: a
+    failure) towards the listening port of the other node, the address book before and after (seeded C10-f2). A name that
+    does not resolve is a dial failure: a distinct observation, judged as a failure of the dialed address."""
+    ka = 2500
+    two = rng.random() < 0.4
+    a = base_cfg(0, ka, user=[user()], listen="12" if two else "1")
+    b = base_cfg(1, ka, user=[user()], mpd=rng.choice([None, 1, 2]))
+    kind = kind or rng.choice(["hf0", "hf0", "hn0", "hs0", "hf0", "l0", "r0"] + (["hf1", "hn1", "l1"] if two else []))
+    ops = [render_node(a), render_node(b)]
+    others = [k for k in ["x", "d3", "hn0", "hf0", "hs0", "x4"] + (["hf1"] if two else []) if k != kind]
+    how = rng.choice(["fresh", "fresh", "book", "book", "bypeer"])
+    if how != "fresh":
+        ops.append(f"addknown 1 0 {'+'.join(rng.sample(others, rng.choice([1, 2, 3])))}")
+    if how == "bypeer":
+        # the dial by peer id picks the address itself: whatever it used, no record may appear that nobody offered
+        ops += [f"addknown 1 0 {kind}", "scores 1 0", "dial 1 0", "settle 600", "events 1", "scores 1 0"]
+        return ops
+    ops += ["scores 1 0", f"dialaddr 1 0 {kind}", "settle 600", "events 1", "scores 1 0"]
+    if rng.random() < 0.35:
+        k2 = rng.choice(["hf0", "hn0", "x", "hs0"])
+        ops += [f"dialaddr 1 0 {k2}", "settle 600", "events 1", "scores 1 0"]
+    return ops
+
+
 MALFORMED = [
+    ["node 0", "node 1", "dialaddr 1 0 hf", "dialaddr 1 0 hf7", "dialaddr 1 0 hq0", "addknown 1 0 hn0+hs9", "node 2 known=0:hf0"],
     ["node 1 ka=500"], ["dial 0 1"], ["node 0 ka=abc"], ["node 0 bogus"], ["node 0 notif=/n/a:1:zz:-:a"],
     ["node 0 user=/u/a:uv-", "dial 0 0", "dial 0 7", "events 3", "open_notif 0 /n/a 0", "request 0 /r/a 0 1 1", "wait 99999", "settle 5"],
     ["node 0 ka=500", "node 0 ka=600"], ["events 0"], ["node 0 lim=1", "node 0 rr=/r/a:64"],
@@ -878,7 +905,7 @@ MALFORMED = [
     ["node 0 identify=1 ida=a,b"], ["node 0 pingf=-1 ping=1"], ["node 0", "scores 0 0", "scores 0 3", "scores 1 0", "dialaddr 0 0 d0", "dialaddr 0 0 x1", "addknown 0 0 d10"],
 ]
 
-FAMILIES = {"fbsize": fbsize_case, "dialorder": dialorder_case, "dial": dial_case, "limits": limits_case, "conn": conn_case, "keepalive": keepalive_case,
+FAMILIES = {"fbsize": fbsize_case, "dialorder": dialorder_case, "dnsdial": dnsdial_case, "dial": dial_case, "limits": limits_case, "conn": conn_case, "keepalive": keepalive_case,
             "reqresp": reqresp_case, "notif": notif_case, "identify": identify_case}
 
 # dynamic families per owning property (the static wiring cases and the malformed stream always run)
@@ -893,7 +920,7 @@ FOCUS = {
     "C13": [("reqresp", 16)],
     "C04": [("fbsize", 8)],
     "C19": [("fbsize", 8)],
-    "C10": [("dialorder", 12)],
+    "C10": [("dialorder", 12), ("dnsdial", 10)],
     # static wiring only
     "C02": [], "C16": [], "C17": [], "C20": [],
     None: [(f, 4) for f in FAMILIES],
@@ -926,6 +953,9 @@ def gen_cases(rng, tier, focus=None):
         cases += [FAMILIES[fam](rng) for _ in range(n * scale)]
     if focus in ("C04", "C19"):
         cases += [fbsize_case(rng, kind=k) for k in ("notif", "rr")]
+    if focus == "C10":
+        # every host kind at every seed
+        cases += [dnsdial_case(rng, kind=k) for k in ("hf0", "hn0", "hs0")]
     if focus == "C09":
         # every kind at every seed
         cases += [keepalive_case(rng, kind=k, fb=True) for k in ("idle", "ping", "held", "held-notif", "libp2p", "held-rr", "held-rr")]
@@ -1676,7 +1706,84 @@ def oracle_c10(case, out):
     return bad
 
 
-ORACLES = {"C04": oracle_sizes, "C19": oracle_sizes, "C10": oracle_c10, "C05": oracle_c05, "C06": oracle_c06, "C07": oracle_c07, "C08": oracle_c08, "C09": oracle_c09,
+SCORE_ESTABLISHED = _const("src/transport/manager/address.rs", r"pub const CONNECTION_ESTABLISHED: i32 = ([0-9_]+)i32;", 100)
+SCORE_BONUS = _const("src/transport/manager/address.rs", r"pub const PUBLIC_ADDRESS_BONUS: i32 = ([0-9_]+)i32;", 1)
+
+
+def _canon_of_kind(kind, j):
+    """Canonical name (adapter's `canon_addr`) of the address `dialaddr <i> <j> <kind>` dials; None = not judged."""
+    if kind[:2] in ("hn", "hf", "hs") and kind[2:].isdigit():
+        return f"{kind[:2]}{j}.{kind[2:]}/p{j}"
+    if kind[:1] in ("l", "r") and kind[1:].isdigit():
+        return f"{j}.{kind[1:]}/p{j}"
+    if kind == "x" or (kind[:1] in ("x", "d") and kind[1:].isdigit()):
+        return f"{kind}/p{j}"
+    return None
+
+
+def _score_map(o):
+    return {k: int(v) for k, v in (x.rsplit("=", 1) for x in o[8:-1].split(",") if "=" in x)}
+
+
+def oracle_c10_used_address(case, out):
+    """"Dial successes and failures re-score exactly the address used": around a dial (`scores` before, the dial, the
+    settled events, `scores` after) — (1) no record appears in the address book that nobody offered (only the dialed
+    address may be new); (2) after a connection established as dialer over the dialed address, that address holds the
+    success score; after a reported failure of it, a negative score; (3) addresses that were not involved keep their
+    score."""
+    bad = []
+    tr = Trace(case, out)
+    ops = list(tr.ops())
+    for n, (i, t, o) in enumerate(ops):
+        if not (t[0] == "scores" and len(t) == 3 and o.startswith("scores=[")):
+            continue
+        if n + 1 >= len(ops):
+            continue
+        i1, t1, o1 = ops[n + 1]
+        if not (t1[0] in ("dialaddr", "dial") and t1[1:3] == t[1:3] and o1 == "ok"):
+            continue
+        node, peer = int(t[1]), t[2]
+        fin = tr.final_events_index(node, i1, quiet_ms=500)
+        if fin is None:
+            continue
+        after = next(((k, oo) for (k, tt, oo) in ops if k > fin and tt[0] == "scores" and tt[1:3] == t[1:3] and oo.startswith("scores=[")), None)
+        # nothing else may have dialed in between
+        if after is None or any(tt[0] in ("dial", "dialaddr", "addknown", "request", "open_notif", "open_sub") for (k, tt, oo) in ops if i1 < k < after[0]):
+            continue
+        before, now = _score_map(o), _score_map(after[1])
+        app = [x for (k, x) in tr.events(node, "app") if i1 < k <= fin]
+        established = any(x.startswith(f"E{peer}d#") for x in app)
+        dialed = _canon_of_kind(t1[3], peer) if t1[0] == "dialaddr" else None
+        fresh = sorted(a for a in now if a not in before and a != dialed)
+        if fresh:
+            _v(bad, case, out, "phantom-address", f"after `{' '.join(t1)}` ({'connected' if established else 'not connected'}; events {app}) the address "
+               f"book of node {node} for node {peer} holds {fresh} which nobody offered (before: {before}, after: {now}"
+               + (f", dialed: {dialed}" if dialed else "") + ")", after[0])
+        if t1[0] == "dialaddr" and dialed is not None:
+            failed = any(x.startswith(f"DF:{dialed}:") for x in app)
+            if established and not failed:
+                if now.get(dialed) not in (SCORE_ESTABLISHED, SCORE_ESTABLISHED + SCORE_BONUS):
+                    _v(bad, case, out, "success-not-credited", f"node {node} connected to node {peer} over the dialed address {dialed} but its "
+                       f"score is {now.get(dialed)} (success score {SCORE_ESTABLISHED}); address book before {before}, after {now}", after[0])
+            if failed and not established and not (now.get(dialed, 0) < 0):
+                _v(bad, case, out, "failure-not-debited", f"the dial of {dialed} failed ({app}) but its score is {now.get(dialed)} "
+                   f"(before {before}, after {now})", after[0])
+            for a, sc in before.items():
+                if a != dialed and a in now and now[a] != sc and len(app) == 1:
+                    _v(bad, case, out, "bystander-rescored", f"`{' '.join(t1)}` changed the score of {a} from {sc} to {now[a]} "
+                       f"(dialed {dialed}; events {app})", after[0])
+        if t1[0] == "dial" and established:
+            if not any(sc in (SCORE_ESTABLISHED, SCORE_ESTABLISHED + SCORE_BONUS) for a, sc in now.items() if a in before):
+                _v(bad, case, out, "success-not-credited", f"node {node} connected to node {peer} by peer id but none of the addresses it "
+                   f"knew ({before}) holds the success score afterwards ({now})", after[0])
+    return bad
+
+
+def oracle_c10_all(case, out):
+    return oracle_c10(case, out) + oracle_c10_used_address(case, out)
+
+
+ORACLES = {"C04": oracle_sizes, "C19": oracle_sizes, "C10": oracle_c10_all, "C05": oracle_c05, "C06": oracle_c06, "C07": oracle_c07, "C08": oracle_c08, "C09": oracle_c09,
            "C11": oracle_c11, "C12": oracle_c12, "C13": oracle_c13}
 
 
